@@ -120,6 +120,8 @@ def value(ty, p, k, seed=0, width=None, extra=0):
         if rw.random() < 0.15 and not extra:
             return ""
         target = rw.randrange(0, 9) + extra       # extra: size variant (same count, different byte size)
+        if rw.random() < 0.03:
+            target += 300                          # now and then a text longer than 255 bytes
         body = ""
         while len(body.encode("utf-8")) < target:
             c = r.choice(_STR_ALPHA)
